@@ -24,7 +24,7 @@ try:
     if rc: print("BUILD-FAILED", out); sys.exit(3)
     # existing tests with the change (cluster tests are sleep-based and flaky under load: up to 3 attempts)
     suite = []
-    for attempt in range(3):
+    for attempt in range(5):
         rc, out = run([NS, "go", "test", "-vet=off", "-count=1", "./actor/", "./remote/", "./ringbuffer/", "./safemap/", "./cluster/"], cwd=wt)
         failed = sorted(set(re.findall(r"--- FAIL: (\S+)", out)))
         suite.append({"rc": rc, "failed": failed})
